@@ -181,3 +181,13 @@ claim("C13",
       "ImportError and each evaluator import arm turns it into ImportFailed with the expression's span.",
       "Trusted: rustc MIR; std::path / std::fs semantics (canonicalize, exists, symlinks). Import cycles are not decided.",
       "DESIGN.md §2 C13")
+claim("C16",
+      "per-variant walks of every render function with tagged span fields (label origin attribution); who-may-construct SpanId; assertion dominance in the span constructor; guard confinement of trace cropping",
+      "Decides structural clauses of C16: (R1) each of the ~85 lexical/syntax/static/run-time error variants and stack-trace items has a "
+      "rendering arm that builds a message of the right kind, renders it, and builds a label from every SpanId / Option<SpanId> field the variant "
+      "carries (closures over optional spans included), so the report can name file:line:col of each; (R2) SpanId is only made by "
+      "SpanManager::intern_span, whose `start <= end` and two in-context assertions dominate both encodings, and make_surrounding_span goes "
+      "through it with its own checks; (R3) the --max-trace cropping slices are confined to the `len > max_trace` branch. The bit-packing round "
+      "trip, line/column values and rendering inside sourceannot are not decided.",
+      "Trusted: rustc MIR. A bad span is a diagnosed assertion (C01 territory), never a wrong location.",
+      "DESIGN.md §2 C16")
